@@ -1,4 +1,4 @@
 SPECIFICATION Spec
-CONSTANTS Lenient = FALSE Alphabet = {0, 1, 2, 3} MaxLen = 6
+CONSTANTS ArrBE = FALSE Lenient = FALSE Alphabet = {0, 1, 2, 3} MaxLen = 6
 CONSTANT Formats <- MCFormats
 INVARIANT SometimesOk
